@@ -6,7 +6,9 @@ C (implementation <-> M, `Drivers/C19.lean`) and S (property oracle on the imple
       clipped to the truncation box, to 1e-12 * intensity
   S2  `CFLevyModel._theta` on the truncated 1-d model equals it; `_theta` on the untruncated model (1-d and copula)
       dominates it by at most the mass outside the box; untruncated `_theta` = inclusion-exclusion of `model.mass`
-      over the unclipped half-spaces
+      over the unclipped half-spaces; and - because `model.mass` itself goes through the library's I-margin helper - also of
+      box masses written out from the definitions, every tail integral in the slot of ITS OWN coordinate of model.copula
+      (box_mass_def), with user-defined copulas that are NOT symmetric functions of their arguments in every n-d stream
   S3  theta is increasing in each threshold
   S4  spread round trips, survival probability, CDS payoff expectation (whole payoff and leg by leg: the code's legs recovered
       from implied_cds_spread vs quadrature of the payoff class' legs - theorem cds_legs_are_expectations), default times
@@ -28,6 +30,7 @@ from scipy.integrate import quad
 from .. import zoo
 from ..common import w, wl, wll, rd, rdl, rdll, close, fr, Infra
 
+from rpylib.distribution.levycopula import LevyCopula
 from rpylib.distribution.samplingfactory import create_q_vector
 from rpylib.distribution.sampling import SamplingMethod
 from rpylib.grid.grid import Coordinates
@@ -47,7 +50,15 @@ RULE = ("synthetic: random dyadic axes with a piecewise-constant dyadic Levy den
         "truncated measure; every third case through MarkovChainProcess). n-d (d = 2; d = 3 in thorough and once in quick): "
         "margins drawn from the families (identical margins forced in a third of the cases so that pair/triple terms are not "
         "negligible) x Clayton(theta, eta) / independent / dependent x thresholds x h in {0.1, 0.05} x symmetric / asymmetric "
-        "credit grid; rates are `model.mass` of the cells of the truncated copula model (MarkovChainLevyCopula is not built). "
+        "credit grid; in d = 3 every stream (chains: every other case; theta / spreads: every fourth case forced + 40 % of the rest) also "
+        "draws USER-DEFINED copulas, subclasses of the library's abstract LevyCopula that are NOT symmetric functions of their arguments: "
+        "SuperpositionCopula as 'Clayton with coordinate-dependent weights' Clayton(alpha u) + Independent((1 - alpha) u), dyadic alpha_i all "
+        "different (asymmetric on finite arguments and in its pair margins; also a quarter of the d = 2 cases), NestedClaytonCopula (one pair of names coupled with theta1 >= theta0, the other pairs with theta0: asymmetric on finite arguments), "
+        "BlockCopula (two names coupled by a 2-d Clayton or the completely dependent copula + one independent name at index 0, 1, 2 in "
+        "turn) and MixtureCopula (dyadic weights; block copula + Clayton / independent / dependent / the block copula of another "
+        "placement: all pair and triple terms non-zero); for every copula _theta and the region rate are additionally judged against "
+        "box masses written out from the definitions with each tail integral in the slot of ITS OWN coordinate (box_mass_def), and for "
+        "the user-defined ones against the sum of the library's own 1-d / 2-d closed forms of the independent blocks (theta_known); rates are `model.mass` of the cells of the truncated copula model (MarkovChainLevyCopula is not built). "
         "spreads: recovery in [0, 0.8], r in [0.005, 0.08], maturity in [0.25, 10], spreads in the brentq bracket and "
         "deliberately outside it. default times: random dyadic log-paths, thresholds dyadic, no increment exactly on a "
         "threshold. malformed: non-negative level, wrong number of levels, four names. histories / several objects: a quarter of "
@@ -72,6 +83,10 @@ NOT_PROVED = [
     "root-searched truncation bounds (l, r) of the credit grid are inputs of M (C13)",
 ]
 ASSUMPTIONS = [
+    "SuperpositionCopula (Levy copula of a sum of independent Levy processes with re-weighted margins) / NestedClaytonCopula (lower-tail limit of the nested Archimedean Clayton copula, theta0 <= theta1; mixed partial derivative >= 0 checked at "
+    "150 digits) / BlockCopula / MixtureCopula (defined in this file through rpylib's public abstract class LevyCopula) are Levy copulas: independent "
+    "blocks (Kallsen-Tankov Prop. 4.1 / Thm 4.4) and convex combinations; groundedness, uniform 1-d margins and d-increasingness of the "
+    "concrete objects were checked with C11's oracles (11200 random argument vectors / rectangles in d = 3, 4, no failure)",
     "thresholds are negative and inside the grid (l < a < -h), as the CTMCCredit constructor requires",
     "'the model restricted to the grid's truncation' is read as the Levy measure restricted to the box prod [l_i, r_i]; its "
     "tail integrals are the box-clipped masses of `model.mass` (DESIGN 3.1 #32: the truncated copula model's own joint mass "
@@ -124,9 +139,248 @@ def decoy_nd(levels, R=0.4, T=1.0):
     return dec
 
 
+# ---- user-defined Levy copulas (the property quantifies over ALL copulas; `LevyCopula` is the library's public abstract class).
+# Every copula the library ships is a symmetric function of its arguments, so an implementation that puts a tail integral into the
+# wrong coordinate slot of F cannot be seen with them.  These two are not symmetric (same definitions in c12.py; zoo.py is shared).
+class BlockCopula(LevyCopula):
+    """Levy copula of a Levy process whose blocks of coordinates B_1, .., B_m (a partition of 0..d-1) are independent of each other, the
+    coordinates inside block k being coupled by the Levy copula C_k (the identity for a single coordinate):
+        F(u) = sum_k C_k(u_{B_k}) * prod_{i not in B_k} 1{u_i = +inf},     F(u) = 0 if some u_i = 0
+    (Kallsen-Tankov 2006, Prop. 4.1 / Thm 4.4 written for blocks: the Levy measure sits on the coordinate subspaces of the blocks).  It is
+    grounded, d-increasing and has uniform margins (checked with C11's oracles, .work/fix-c19e/validate.py).  The names of different
+    blocks never jump together: the default intensity is the sum of the intensities of the blocks."""
+
+    def __init__(self, blocks, parts):
+        self.blocks = [list(B) for B in blocks]
+        self.parts = list(parts)
+        self.d = sum(len(B) for B in self.blocks)
+        if sorted(i for B in self.blocks for i in B) != list(range(self.d)):
+            raise ValueError("blocks must partition 0..d-1")
+        self.rest = [[i for i in range(self.d) if i not in B] for B in self.blocks]
+
+    def __repr__(self):
+        return f"BlockCopula(blocks={self.blocks}, parts={self.parts})"
+
+    def __call__(self, us):
+        us = np.asarray(us, dtype=float)
+        if us.size != self.d:
+            raise ValueError(f"BlockCopula of dimension {self.d} evaluated at {us.size} arguments")
+        if np.any(us == 0):
+            return 0.0
+        res = 0.0
+        for B, C, R in zip(self.blocks, self.parts, self.rest):
+            if all(us[i] == INF for i in R):
+                res += float(us[B[0]]) if len(B) == 1 else float(C(us[B]))
+        return res
+
+
+class MixtureCopula(LevyCopula):
+    """convex combination of Levy copulas of the same dimension (groundedness, d-increasingness and uniform margins are preserved); the
+    Levy measure of the model - hence the default intensity - is the same combination of those of the models built with the parts"""
+
+    def __init__(self, weights, parts):
+        if not (abs(sum(weights) - 1.0) < 1e-15 and all(x > 0 for x in weights)):
+            raise ValueError("weights must be positive and sum to 1")
+        self.weights, self.parts = list(weights), list(parts)
+
+    def __repr__(self):
+        return f"MixtureCopula(weights={self.weights}, parts={self.parts})"
+
+    def __call__(self, us):
+        us = np.asarray(us, dtype=float)
+        if np.any(us == 0):
+            return 0.0
+        return float(sum(x * float(C(us)) for x, C in zip(self.weights, self.parts)))
+
+
+class NestedClaytonCopula(LevyCopula):
+    """partially nested Clayton Levy copula: G(x) = ((x_i^-t1 + x_j^-t1)^(t0/t1) + sum_{k not in pair} x_k^-t0)^(-1/t0) on [0,inf]^d with
+    0 < t0 <= t1 (lower-tail limit of the nested Archimedean Clayton copula, valid for t0 <= t1: the mixed partial derivative is >= 0,
+    checked at 150 digits in d = 3, 4), extended to all orthants the way the library's Clayton is:
+        F(u) = 2^(2-d) G(|u|) (eta 1{prod u >= 0} - (1-eta) 1{prod u < 0}).
+    NOT symmetric on FINITE arguments either: the pair (i, j) is coupled with t1, every other pair with t0.  Its proper margins are known in
+    closed form: Clayton(t1, 1/2) for I = pair, Clayton(t0, 1/2) for any other pair, nested with eta = 1/2 when I contains the pair."""
+
+    def __init__(self, pair, theta0, theta1, eta):
+        if not (0 < theta0 <= theta1 and 0.0 <= eta <= 1.0 and len(pair) == 2):
+            raise ValueError("expected 0 < theta0 <= theta1, eta in [0,1], a pair of coordinates")
+        self.pair, self.theta0, self.theta1, self.eta = list(pair), theta0, theta1, eta
+
+    def __repr__(self):
+        return f"NestedClaytonCopula(pair={self.pair}, theta0={self.theta0}, theta1={self.theta1}, eta={self.eta})"
+
+    def __call__(self, us):
+        us = np.asarray(us, dtype=float)
+        if np.any(us == 0):
+            return 0.0
+        x = np.abs(us)
+        i, j = self.pair
+        with np.errstate(all="ignore"):
+            inner = (x[i] ** -self.theta1 + x[j] ** -self.theta1) ** (self.theta0 / self.theta1)
+            outer = inner + sum(x[k] ** -self.theta0 for k in range(us.size) if k not in self.pair)
+            g = outer ** (-1.0 / self.theta0)
+        odd = int(np.sum(us < 0)) % 2
+        return float(2.0 ** (2 - us.size) * g * (self.eta if odd == 0 else -(1.0 - self.eta)))
+
+
+class SuperpositionCopula(LevyCopula):
+    """F(u) = sum_k C_k(alpha^k * u) with positive coordinate weights alpha^k_i, sum_k alpha^k_i = 1 for every i: the Levy copula of a sum of
+    independent Levy processes X^k whose marginal tail integrals are alpha^k_i U_i and whose Levy copulas are C_k (tail integrals add up).
+    Used as 'Clayton with coordinate-dependent weights': Clayton(alpha * u) + Independent((1 - alpha) * u) - NOT symmetric on finite
+    arguments, and its pair margins Clayton_{theta,1/2}(alpha_i u_i, alpha_j u_j) are not symmetric either; valid in d = 2 as well."""
+
+    def __init__(self, scales, parts):
+        self.scales = [np.asarray(a, dtype=float) for a in scales]
+        self.parts = list(parts)
+        if not (np.all(sum(self.scales) == 1.0) and all(np.all(a > 0) for a in self.scales)):
+            raise ValueError("scales must be positive and sum to 1 in every coordinate")
+
+    def __repr__(self):
+        return f"SuperpositionCopula(scales={[[float(x) for x in a] for a in self.scales]}, parts={self.parts})"
+
+    def __call__(self, us):
+        us = np.asarray(us, dtype=float)
+        if np.any(us == 0):
+            return 0.0
+        return float(sum(float(C(a * us)) for a, C in zip(self.scales, self.parts)))
+
+
+def weighted_clayton(alpha, theta, eta):
+    al = np.asarray(alpha, dtype=float)
+    return SuperpositionCopula([al, 1.0 - al], [zoo.make_copula("clayton", theta=theta, eta=eta), BlockCopula([[i] for i in range(al.size)], [None] * al.size)])
+
+
+NONEXCH = ("block", "mix", "nested", "wclayton")
+
+
+def make_cop(cd):
+    """copula from a JSON-able descriptor {"cop": name, ...}: the library's through zoo.make_copula, the user-defined ones above"""
+    k = cd["cop"]
+    if k in zoo.COPULAS:
+        return zoo.make_copula(k, **{n: cd[n] for n in ("theta", "eta") if n in cd})
+    if k == "block":
+        return BlockCopula(cd["blocks"], [None if p is None else make_cop(p) for p in cd["parts"]])
+    if k == "mix":
+        return MixtureCopula(cd["weights"], [make_cop(p) for p in cd["parts"]])
+    if k == "nested":
+        return NestedClaytonCopula(cd["pair"], cd["theta0"], cd["theta1"], cd["eta"])
+    if k == "wclayton":
+        return weighted_clayton(cd["alpha"], cd["theta"], cd["eta"])
+    raise ValueError(f"unknown copula {k}")
+
+
+def cop_descriptor(d):
+    return dict(cop=d["copula"], **d.get("copula_kw", {}))
+
+
 def make_cm(d):
     margins = [make_model(f, p, d.get("exp", False), d.get("r", 0.02)) for f, p in d["margins"]]
-    return margins, zoo.make_copula_model(margins, zoo.make_copula(d["copula"], **d.get("copula_kw", {})))
+    return margins, zoo.make_copula_model(margins, make_cop(cop_descriptor(d)))
+
+
+# ---- the Levy mass of a box from the DEFINITIONS: every tail integral in the slot of its own coordinate --------------------------------
+def tail_integral(m, x):
+    """U(x) = sgn(x) nu(I(x)), I(x) = (x, inf) for x >= 0 and (-inf, x] for x < 0, from the margin's own Levy measure"""
+    if math.isinf(x):
+        return 0.0
+    nu = m.levy_triplet.nu
+    return float(nu.integrate(x, INF)) if x >= 0 else -float(nu.integrate(-INF, x))
+
+
+def i_margin_def(F, dim, J, uJ):
+    """F^J(u_J) = sum over the corners p in {-inf, +inf}^(J^c) of prod sgn(p) * F(u), u_j in slot j for j in J and p in the other slots"""
+    comp = [i for i in range(dim) if i not in J]
+    tot = 0.0
+    for p in itertools.product((-INF, INF), repeat=len(comp)):
+        u = np.zeros(dim)
+        for j, v in zip(J, uJ):
+            u[j] = v
+        for i, v in zip(comp, p):
+            u[i] = v
+        tot += (-1.0) ** sum(v < 0 for v in p) * float(F(u))
+    return tot
+
+
+def box_mass_def(F, margins, a, b):
+    """Levy mass of prod (a_i, b_i] (not containing the origin) of the copula model (margins, F), written out from the definitions:
+    (a,b] = (a,inf) \\ (b,inf) on the positive side, (-inf,b] \\ (-inf,a] on the negative side, R \\ (-inf,a] \\ (b,inf) when it straddles 0 (R:
+    the coordinate is erased); the mass of an orthant prod_{j in J} I(x_j) is prod sgn(x_j) * F^J(U_j(x_j), j in J)"""
+    dim = len(margins)
+    per = []
+    for x, y in zip(a, b):
+        if x < 0 < y:
+            per.append([(1.0, None), (-1.0, x), (-1.0, y)])
+        elif x >= 0:
+            per.append([(1.0, x), (-1.0, y)])
+        else:
+            per.append([(1.0, y), (-1.0, x)])
+    tot = 0.0
+    for choice in itertools.product(*per):
+        J = [i for i, (_, x) in enumerate(choice) if x is not None]
+        if not J:
+            raise ValueError("box contains the origin")
+        xs = [choice[i][1] for i in J]
+        if any(math.isinf(x) for x in xs):
+            continue                                    # empty orthant
+        coef = 1.0
+        for c, _ in choice:
+            coef *= c
+        for x in xs:
+            coef *= 1.0 if x >= 0 else -1.0
+        us = [tail_integral(margins[i], x) for i, x in zip(J, xs)]
+        tot += coef * (us[0] if len(J) == 1 else i_margin_def(F, dim, J, us))
+    return tot
+
+
+def theta_known(cd, margins, levels):
+    """default intensity known independently of any 3-d formula, or None: block copula = sum over the blocks of the library's own
+    lower-dimensional closed form (names of different blocks never jump together); mixture = the same combination of the
+    intensities of its parts (a library copula as a part: the library's closed form with that - exchangeable - copula)"""
+    k = cd["cop"]
+    if k == "block":
+        tot = 0.0
+        for B, part in zip(cd["blocks"], cd["parts"]):
+            if len(B) == 1:
+                tot += float(CFLevyModel(margins[B[0]])._theta(levels[B[0]]))
+            else:
+                sub = zoo.make_copula_model([margins[i] for i in B], make_cop(part))
+                tot += float(CFLevyCopulaModel(sub)._theta([levels[i] for i in B]))
+        return tot
+    if k == "mix":
+        tot = 0.0
+        for x, part in zip(cd["weights"], cd["parts"]):
+            v = theta_known(part, margins, levels)
+            if v is None:
+                if part["cop"] not in zoo.COPULAS:
+                    return None
+                v = float(CFLevyCopulaModel(zoo.make_copula_model(list(margins), make_cop(part)))._theta(list(levels)))
+            tot += x * v
+        return tot
+    return None
+
+
+def theta_references(ctx, d, cls, margins, cm, levels, th, tol, stream):
+    """`_theta` (value `th`) against (1) inclusion-exclusion of box_mass_def over the half-spaces - every copula, dimension >= 2 - and
+    (2) theta_known for the user-defined copulas; False after reporting a failure"""
+    dim = len(levels)
+    th_def, parts = incl_excl(dim, lambda I: box_mass_def(cm.copula, margins, [-INF] * dim,
+                                                          [levels[i] if i in I else INF for i in range(dim)]))
+    ctx.branches[f"c19.{stream}:theta_by_definition:d{dim}"] += 1
+    if not abs(th - th_def) <= tol:
+        ctx.fail("oracle", "c19.theta_is_mass_of_union", d, {"dim": dim, "_theta(untruncated)": th,
+                                                           "incl_excl of the half-space masses from the definitions (each tail integral in "
+                                                           "the slot of its own coordinate)": th_def, "terms": parts,
+                                                           "copula": repr(cm.copula)}, cls=cls)
+        return False
+    known = theta_known(cop_descriptor(d), margins, levels)
+    if known is not None:
+        ctx.branches[f"c19.{stream}:theta_known_from_lower_dimension:d{dim}"] += 1
+        if not abs(th - known) <= tol:
+            ctx.fail("oracle", "c19.theta_is_mass_of_union", d, {"dim": dim, "_theta(untruncated)": th,
+                                                               "sum of the lower-dimensional closed forms of the independent blocks": known,
+                                                               "copula": repr(cm.copula)}, cls=cls)
+            return False
+    return True
 
 
 def axis_ok(ax, o):
@@ -501,6 +755,9 @@ def _chainnd(ctx, d, cls, corr):
         return cm.mass(tuple(l), tuple(levels[i] if i in I else r[i] for i in range(dim)))
 
     th_clip, clip_parts = incl_excl(dim, clipped)
+    # the same boxes measured from the definitions (every tail integral in the slot of its own coordinate of cm.copula)
+    th_clip_def, clip_def_parts = incl_excl(dim, lambda I: box_mass_def(cm.copula, margins, l, [levels[i] if i in I else r[i]
+                                                                                                for i in range(dim)]))
     th_full = float(CFLevyCopulaModel(cm)._theta(levels))
     th_mass, full_parts = incl_excl(dim, lambda I: cm.mass(tuple([-INF] * dim),
                                                              tuple(levels[i] if i in I else INF for i in range(dim))))
@@ -513,9 +770,12 @@ def _chainnd(ctx, d, cls, corr):
     ctx.count("c19.chainNd", d, nontrivial=nontrivial, branch=f"d{dim}:{d['copula']}:{'sym' if sym else 'asym'}")
     ctx.branches[f"c19.chainNd:d{dim}"] += 1
     ctx.branches[f"c19.chainNd:d{dim}:{'nontrivial' if nontrivial else 'negligible_theta_or_pair_terms'}"] += 1
-    if not abs(region - th_clip) <= tol:
+    if not (abs(region - th_clip) <= tol and abs(region - th_clip_def) <= tol):
         ctx.fail("oracle", "c19.region_rate_eq_theta", d, {"dim": dim, "region_rate": region, "theta_clipped": th_clip,
-                                                         "intensity": lam, "clipped_terms": clip_parts, "axes": axes}, cls=cls)
+                                                         "theta_clipped, box masses from the definitions": th_clip_def,
+                                                         "intensity": lam, "clipped_terms": clip_parts,
+                                                         "clipped_terms from the definitions": clip_def_parts, "axes": axes,
+                                                         "copula": repr(cm.copula)}, cls=cls)
         credit_axis_check(ctx, d, cls, g, axes, levels, sym, False)
         return
     if not credit_axis_check(ctx, d, cls, g, axes, levels, sym, corr):
@@ -524,6 +784,8 @@ def _chainnd(ctx, d, cls, corr):
         ctx.fail("oracle", "c19.theta_is_mass_of_union", d, {"dim": dim, "_theta(untruncated)": th_full,
                                                            "incl_excl of model.mass over the half-spaces": th_mass,
                                                            "terms": full_parts}, cls=cls)
+        return
+    if not theta_references(ctx, d, cls, margins, cm, levels, th_full, tol, "chainNd"):
         return
     if not (-tol <= th_full - th_clip <= outside + tol):
         ctx.fail("oracle", "c19.theta_untruncated_dominates", d, {"dim": dim, "_theta(untruncated)": th_full,
@@ -584,7 +846,7 @@ def _theta(ctx, d, cls, corr):
     `model.mass`, increasing in each threshold; C: M's thetaCopula on the implementation's ingredients"""
     levels = list(d["a"])
     dim = len(levels)
-    _, cm = make_cm(d)
+    margins, cm = make_cm(d)
     cf = CFLevyCopulaModel(cm)
     if d.get("decoy"):
         decoy_nd(levels)
@@ -600,6 +862,8 @@ def _theta(ctx, d, cls, corr):
         ctx.fail("oracle", "c19.theta_is_mass_of_union", d, {"dim": dim, "_theta(untruncated)": th,
                                                            "incl_excl of model.mass over the half-spaces": th_mass,
                                                            "terms": parts}, cls=cls)
+        return
+    if not theta_references(ctx, d, cls, margins, cm, levels, th, REL * scale, "theta"):
         return
     if not (max(parts[:dim]) - REL * scale <= th <= sum(parts[:dim]) + REL * scale):
         ctx.fail("oracle", "c19.theta_is_mass_of_union", d, {"dim": dim, "what": "theta outside [max_i nu_i, sum_i nu_i]",
@@ -690,6 +954,8 @@ def _spreads(ctx, d, cls, corr):
         if not abs(theta - ref) <= 1e-9 * max(abs(ref), 1e-300):
             ctx.fail("oracle", "c19.theta_is_mass_of_union", d, {"dim": len(a), "_theta(untruncated)": theta,
                                                                "incl_excl of model.mass over the half-spaces": ref}, cls=cls)
+            return
+        if not theta_references(ctx, d, cls, margins, cm, a, theta, 1e-9 * max(abs(ref), 1e-300), "spreads"):
             return
         par = float(cf.first_to_default_par_spread(levels_a=a, recovery_rate=R))
         lo, hi = -10, 10
@@ -939,19 +1205,68 @@ def case_1d(rng, fam=None, i=0):
                 via_process=(i % 3 == 2), decoy=rng.random() < 0.4)
 
 
-def case_nd(rng, dim):
+def draw_nonexchangeable(rng, dim, special=None):
+    """(name, kw) of a copula that is not a symmetric function of its arguments; `special` = the odd name, at each of the placements: Clayton
+    with coordinate-dependent weights (the smallest weight at `special`; the only kind in d = 2); d = 3: nested Clayton (the two other names coupled with theta1 >= theta0), block copula (the two other names coupled by a 2-d
+    Clayton or the completely dependent copula, `special` independent of them), or a mixture with dyadic weights of such a block copula with
+    a library copula / a nested Clayton / the block copula of another placement (pair and triple terms all non-zero)"""
+    def clay():
+        return dict(cop="clayton", theta=rng.choice(CLAYTON["theta"]), eta=rng.choice(CLAYTON["eta"]))
+
+    def block(k):
+        return dict(blocks=[[i for i in range(dim) if i != k], [k]], parts=[clay() if rng.random() < 0.85 else dict(cop="dependent"), None])
+
+    def nested(k):
+        t0 = rng.choice([0.3, 0.5, 0.7, 1.0])
+        return dict(pair=[i for i in range(dim) if i != k], theta0=t0, theta1=t0 * rng.choice([1.5, 2.0, 4.0]), eta=rng.choice(CLAYTON["eta"]))
+
+    def wclay(k):           # Clayton with coordinate-dependent dyadic weights, all different, the smallest one at k
+        al = sorted(rng.sample(range(1, 8), dim))
+        rest = al[1:]
+        rng.shuffle(rest)
+        return dict(alpha=[v / 8 for v in rest[:k] + [al[0]] + rest[k:]], theta=rng.choice(CLAYTON["theta"]), eta=rng.choice(CLAYTON["eta"]))
+
+    k = rng.randrange(dim) if special is None else special
+    x = rng.random()
+    if dim == 2:
+        return "wclayton", wclay(k)
+    if x < 0.25:            # asymmetric on finite arguments and in its pair margins
+        return "wclayton", wclay(k)
+    if x < 0.45:            # asymmetric on finite arguments (pair coupled with theta1, the other pairs with theta0)
+        return "nested", nested(k)
+    if x < 0.7:             # asymmetric through the +-inf corners of the margins only
+        return "block", block(k)
+    n = rng.randint(1, 7)
+    if x < 0.92:
+        y = rng.random()
+        other = (clay() if y < 0.35 else dict(cop="nested", **nested(rng.randrange(dim))) if y < 0.6
+                 else dict(cop="wclayton", **wclay(rng.randrange(dim))) if y < 0.85 else dict(cop=rng.choice(["independent", "dependent"])))
+    else:
+        other = dict(cop="block", **block((k + rng.choice([1, 2])) % dim))
+    return "mix", dict(weights=[n / 8, 1 - n / 8], parts=[dict(cop="block", **block(k)), other])
+
+
+P_NONEXCH = 0.4
+
+
+def case_nd(rng, dim, special=None):
+    """special = 0, 1, 2: force (d = 3) a copula that is not a symmetric function of its arguments, the independent name at that index;
+    special = "library": force a copula of the library"""
     if rng.random() < 0.35:
         m = draw_margin(rng)
         margins = [m] * dim
     else:
         margins = [draw_margin(rng) for _ in range(dim)]
-    cop = rng.choice(zoo.COPULAS)
-    kw = dict(theta=rng.choice(CLAYTON["theta"]), eta=rng.choice(CLAYTON["eta"])) if cop == "clayton" else {}
+    if special != "library" and (special is not None or rng.random() < (P_NONEXCH if dim == 3 else 0.25)):
+        cop, kw = draw_nonexchangeable(rng, dim, special)
+    else:
+        cop = rng.choice(zoo.COPULAS)
+        kw = dict(theta=rng.choice(CLAYTON["theta"]), eta=rng.choice(CLAYTON["eta"])) if cop == "clayton" else {}
     return dict(margins=[list(m) for m in margins], copula=cop, copula_kw=kw, a=[rng.choice(LEVELS) for _ in range(dim)],
                 h=rng.choice([0.1, 0.05]), sym=rng.random() < 0.5, exp=rng.random() < 0.3)
 
 
-def case_spreads(rng, kind):
+def case_spreads(rng, kind, special=None):
     base = dict(kind=kind, R=round(rng.uniform(0.0, 0.8), 3), T=rng.choice([0.25, 1.0, 2.0, 5.0, 10.0]),
                 r=round(rng.uniform(0.005, 0.08), 4), s=round(rng.uniform(-0.02, 0.3), 5), pv_out=rng.choice([-1e4, 1e4]),
                 h0=rng.choice([1e-6, 1e-3]), decoy=rng.random() < 0.4)
@@ -967,8 +1282,8 @@ def case_spreads(rng, kind):
     if kind == "1d":
         fam, params = draw_margin(rng)
         return dict(base, family=fam, params=params, a=rng.choice(LEVELS))
-    dim = rng.choice([2, 3])
-    nd = case_nd(rng, dim)
+    dim = rng.choice([2, 3]) if special is None else 3
+    nd = case_nd(rng, dim, special)
     return dict(base, margins=nd["margins"], copula=nd["copula"], copula_kw=nd["copula_kw"], a=nd["a"])
 
 
@@ -997,9 +1312,9 @@ def case_payoff(rng):
     return dict(R=round(rng.uniform(0, 0.8), 3), s=round(rng.uniform(-0.01, 0.2), 5), r=round(rng.uniform(0.005, 0.08), 4), T=T, tau=tau)
 
 
-def case_theta(rng):
-    dim = rng.choice([2, 3, 3])
-    nd = case_nd(rng, dim)
+def case_theta(rng, special=None):
+    dim = rng.choice([2, 3, 3]) if special is None else 3
+    nd = case_nd(rng, dim, special)
     return dict(margins=nd["margins"], copula=nd["copula"], copula_kw=nd["copula_kw"], a=nd["a"], exp=nd["exp"],
                 delta=rng.choice([0.1, 0.01, 1e-4]), decoy=rng.random() < 0.3)
 
@@ -1020,16 +1335,16 @@ def run(ctx, corr=True):
         chain1d_probe(ctx, case_1d(rng, fam, i), corr)
     for _ in range(ctx.n(150, 1500)):
         chainnd_probe(ctx, case_nd(rng, 2), corr)
-    want3, tries = ctx.n(8, 150), 0        # d = 3: a couple in quick, the bulk in thorough
-    while ctx.branches["c19.chainNd:d3"] < want3 and tries < 3 * want3:
-        chainnd_probe(ctx, case_nd(rng, 3), corr)
+    want3, tries = ctx.n(12, 150), 0       # d = 3: a dozen in quick, the bulk in thorough; every other one with a copula that is not a
+    while ctx.branches["c19.chainNd:d3"] < want3 and tries < 3 * want3:      # symmetric function, the independent name at 0, 1, 2 in turn
+        chainnd_probe(ctx, case_nd(rng, 3, special=((tries // 2) % 3 if tries % 2 == 0 else "library")), corr)
         tries += 1
-    for _ in range(ctx.n(150, 1500)):
-        theta_probe(ctx, case_theta(rng), corr)
+    for t in range(ctx.n(150, 1500)):
+        theta_probe(ctx, case_theta(rng, special=((t // 4) % 3 if t % 4 == 0 else None)), corr)
     for _ in range(ctx.n(100, 800)):
         spreads_probe(ctx, case_spreads(rng, "1d"), corr)
-    for _ in range(ctx.n(40, 300)):
-        spreads_probe(ctx, case_spreads(rng, "nd"), corr)
+    for t in range(ctx.n(40, 300)):
+        spreads_probe(ctx, case_spreads(rng, "nd", special=((t // 4) % 3 if t % 4 == 0 else None)), corr)
     for _ in range(ctx.n(300, 2500)):
         deftimes_probe(ctx, case_deftimes(rng), corr)
     for _ in range(ctx.n(100, 1000)):
